@@ -68,11 +68,31 @@ def same(a, b, depth=0):
         return True
 
 
+def module_state():
+    """sizes / identities of every mutable module-level and class-level container of the pb_bss modules (a hidden cache that a
+    call fills shows up here even when its effect on results needs a particular history to become visible)"""
+    import sys
+    out = {}
+    for name, m in list(sys.modules.items()):
+        if not (name == 'pb_bss' or name.startswith('pb_bss.')) or m is None:
+            continue
+        for k, v in list(vars(m).items()):
+            if k.startswith('__'):
+                continue
+            if isinstance(v, (dict, list, set)):
+                out[f'{name}.{k}'] = (id(v), len(v))
+            elif isinstance(v, type) and getattr(v, '__module__', '') == name:
+                for ck, cv in list(vars(v).items()):
+                    if isinstance(cv, (dict, list, set)) and not ck.startswith('__'):
+                        out[f'{name}.{k}.{ck}'] = (id(cv), len(cv))
+    return out
+
+
 def global_state():
     import warnings
     st = np.random.get_state()
     return dict(rng=hashlib.sha1(st[1].tobytes()).hexdigest() + str(st[2:]), err=repr(np.geterr()), po=repr(sorted(np.get_printoptions().items())),
-                wf=len(warnings.filters))
+                wf=len(warnings.filters), mod=module_state())
 
 
 def setflags(obj, write):
@@ -347,6 +367,23 @@ def run_entry(case, R):
             R.undecided('C20.purity', 'setup raised')
             return
     o = o or {}
+    # memory layout of the argument arrays: C order, Fortran order (e.g. loadmat output) or a non-contiguous view
+    layout = ['c', 'f', 'view'][int(rng.integers(0, 3))]
+
+    def relayout(x):
+        if isinstance(x, np.ndarray) and x.ndim >= 2 and x.size > 1:
+            if layout == 'f':
+                return np.asfortranarray(x)
+            if layout == 'view':
+                big = np.zeros(x.shape[:-1] + (2 * x.shape[-1],), dtype=x.dtype)
+                big[..., ::2] = x
+                return big[..., ::2]
+        return x
+    if layout != 'c' and not o.get('exempt'):
+        args = tuple(relayout(a) for a in args)
+        kw = {k: relayout(v) for k, v in kw.items()}
+        if getattr(fn, '__self__', None) is not None and name.startswith(('dist:', 'cacgmm.log_likelihood')) is False:
+            pass
     exempt = set(o.get('exempt', ()))
     no_ro = set(o.get('no_readonly', ()))
     arrs = arrays_in(dict(args=list(args), kwargs=kw))
@@ -373,8 +410,11 @@ def run_entry(case, R):
     g1 = global_state()
     changed = [p for p, a in arrs if digest(a) != before[p] and p not in exempt]
     R.check('C20.purity', not changed, f'purity/modified/{name}', f'{name} modified its argument(s) {changed}', args=changed)
-    keys = ['err', 'po', 'wf'] + (['rng'] if seed is None else [])
+    keys = ['err', 'po', 'wf', 'mod'] + (['rng'] if seed is None else [])
     diffg = [k for k in keys if g0[k] != g1[k]]
+    if 'mod' in diffg:
+        changed_mod = sorted(k for k in set(g0['mod']) | set(g1['mod']) if g0['mod'].get(k) != g1['mod'].get(k))
+        diffg[diffg.index('mod')] = 'module/class-level containers ' + ', '.join(changed_mod)[:200]
     if seed is None and 'rng' in diffg and ('num_classes' in kw and kw.get('num_classes') is not None):
         diffg.remove('rng')
     R.check('C20.globals', not diffg, f'globals/changed/{name}', f'{name} changed global state {diffg} (NumPy RNG state / errstate / printoptions / warning filters)', changed=diffg)
@@ -434,7 +474,7 @@ def run_entry(case, R):
     changed = [p for p, a in arrs if digest(a) != before[p] and p not in exempt]
     R.check('C20.purity', not changed, f'purity/modified/{name}', f'{name} modified its argument(s) {changed}', args=changed)
     if any(a.size > 1 for _, a in arrs):
-        R.mark_nontrivial('entry', name, sorted((k, str(v)[:20]) for k, v in kw.items() if not isinstance(v, np.ndarray)))
+        R.mark_nontrivial('entry', name, layout, sorted((k, str(v)[:20]) for k, v in kw.items() if not isinstance(v, np.ndarray)))
     R.sample(dict(lane='entry', name=name, array_args=[p for p, _ in arrs][:6]))
 
 
@@ -520,7 +560,12 @@ def run_split(case, R):
     rng = gen.rng_of(case)
     n, K, D, lead = case['n'], case['K'], case['D'], tuple(case['lead'])
     o = scen.sample_opts(rng, 'cacgmm', lead)
-    o.pop('aligner', None)
+    if len(lead) == 1 and lead[0] % 2 == 1 and rng.uniform() < 0.5:
+        o['wca'] = [-3] if rng.uniform() < 0.5 else [-3, -1]
+        o['aligner'] = ['greedy-cos', 'greedy-euclidean'][int(rng.integers(2))]
+        o.pop('mask', None)
+    else:
+        o.pop('aligner', None)
     c = dict(kind='cacgmm', cls='gauss', K=K, N=int(rng.integers(4 * K, 10 * K + 6)), D=D, lead=list(lead), init='dirichlet:1', iters=n, opts=o, rs=[int(rng.integers(2 ** 31))])
     s = scen.build(c)
     # random composition n = n1 + ... + nj
@@ -551,5 +596,5 @@ def run_split(case, R):
         else:
             R.fail('C20.split', 'split/differs', f'cACGMM fit of {n} iterations differs from the split {parts} continued from the returned model (max dev {dev:.3e})', parts=parts, opts=o)
     if len(parts) >= 2:
-        R.mark_nontrivial('split', n, len(parts), o.get('wca'), bool(o.get('mask')), o.get('saliency'))
+        R.mark_nontrivial('split', n, len(parts), o.get('wca'), bool(o.get('mask')), o.get('saliency'), o.get('aligner'))
     R.sample(dict(lane='split', n=n, parts=parts, opts=o, lead=list(lead)))
